@@ -144,3 +144,132 @@ func WriteFile(name string, data []byte, perm FileMode) error {
 	}
 	return os.WriteFile(name, data, perm)
 }
+
+// ---- the rest of the os surface a maintainer's change to the update path may plausibly use,
+// so that such a change still builds under the shim (each call is a fault point as well) ----
+
+const (
+	O_RDONLY = os.O_RDONLY
+	O_WRONLY = os.O_WRONLY
+	O_RDWR   = os.O_RDWR
+	O_APPEND = os.O_APPEND
+	O_CREATE = os.O_CREATE
+	O_EXCL   = os.O_EXCL
+	O_SYNC   = os.O_SYNC
+	O_TRUNC  = os.O_TRUNC
+
+	PathSeparator = os.PathSeparator
+)
+
+type (
+	DirEntry  = os.DirEntry
+	PathError = os.PathError
+)
+
+var (
+	ErrNotExist   = os.ErrNotExist
+	ErrExist      = os.ErrExist
+	ErrPermission = os.ErrPermission
+)
+
+func IsExist(err error) bool            { return os.IsExist(err) }
+func IsPermission(err error) bool       { return os.IsPermission(err) }
+func Getenv(k string) string            { return os.Getenv(k) }
+func Setenv(k, v string) error          { return os.Setenv(k, v) }
+func LookupEnv(k string) (string, bool) { return os.LookupEnv(k) }
+func TempDir() string                   { return os.TempDir() }
+func Getwd() (string, error)            { return os.Getwd() }
+
+func OpenFile(name string, flag int, perm FileMode) (*File, error) {
+	if err := pointN("OpenFile", name); err != nil {
+		return nil, err
+	}
+	f, err := os.OpenFile(name, flag, perm)
+	if err != nil {
+		return nil, err
+	}
+	return &File{f}, nil
+}
+
+func Rename(oldpath, newpath string) error {
+	if err := pointN("Rename", newpath); err != nil {
+		return err
+	}
+	return os.Rename(oldpath, newpath)
+}
+
+func RemoveAll(path string) error {
+	if err := pointN("RemoveAll", path); err != nil {
+		return err
+	}
+	return os.RemoveAll(path)
+}
+
+func Mkdir(name string, perm FileMode) error {
+	if err := pointN("Mkdir", name); err != nil {
+		return err
+	}
+	return os.Mkdir(name, perm)
+}
+
+func MkdirTemp(dir, pattern string) (string, error) {
+	if err := pointN("MkdirTemp", dir); err != nil {
+		return "", err
+	}
+	return os.MkdirTemp(dir, pattern)
+}
+
+func CreateTemp(dir, pattern string) (*File, error) {
+	if err := pointN("CreateTemp", dir); err != nil {
+		return nil, err
+	}
+	f, err := os.CreateTemp(dir, pattern)
+	if err != nil {
+		return nil, err
+	}
+	return &File{f}, nil
+}
+
+func ReadDir(name string) ([]DirEntry, error) {
+	if err := pointN("ReadDir", name); err != nil {
+		return nil, err
+	}
+	return os.ReadDir(name)
+}
+
+func Lstat(name string) (FileInfo, error) {
+	if err := pointN("Lstat", name); err != nil {
+		return nil, err
+	}
+	return os.Lstat(name)
+}
+
+func Truncate(name string, size int64) error {
+	if err := pointN("Truncate", name); err != nil {
+		return err
+	}
+	return os.Truncate(name, size)
+}
+
+func Chmod(name string, mode FileMode) error { return os.Chmod(name, mode) }
+
+func (f *File) WriteString(s string) (int, error) { return f.Write([]byte(s)) }
+func (f *File) Name() string                      { return f.f.Name() }
+func (f *File) Stat() (FileInfo, error)           { return f.f.Stat() }
+func (f *File) Seek(off int64, whence int) (int64, error) {
+	return f.f.Seek(off, whence)
+}
+
+func (f *File) Sync() error {
+	if err := point("Sync"); err != nil {
+		return err
+	}
+	return f.f.Sync()
+}
+
+func (f *File) Truncate(size int64) error {
+	if err := point("FileTruncate"); err != nil {
+		return err
+	}
+	return f.f.Truncate(size)
+}
